@@ -21,6 +21,9 @@ func GenCmdCachePlan(seed uint64) *Plan {
 	g := newGen(seed, 15)
 	p := &Plan{Version: 1, Property: "C15", Seed: seed, Inner: g.u64(), World: "cmdcache", UntilMs: 1, MaxSteps: 10000}
 	p.Knobs = map[string]int{"batch": g.rng(1, 4), "clients": g.rng(1, 3)}
+	if mix(p.Inner, 0x7a65726f)%2 == 0 {
+		p.Knobs["zero"] = 1
+	}
 	n := g.rng(4, 80)
 	for i := 0; i < n; i++ {
 		op := SmallOp{Task: g.intn(3)}
@@ -249,6 +252,10 @@ func ccRun(p *Plan, res *Result, logw io.Writer) {
 			case 1:
 				if nextSeq[op.A] > 0 {
 					s = 1 + mix(p.Inner, uint64(i))%nextSeq[op.A]
+					if p.knob("zero", 0) == 1 && mix(p.Inner, 0x7a65726f, uint64(i))%3 == 0 {
+						s = 0 // a client that numbers from zero: below every mark, the initial one included
+						st.Faults["sequence-number-zero-added"]++
+					}
 					st.Faults["old-sequence-number-added"]++
 				} else {
 					nextSeq[op.A]++
